@@ -356,7 +356,7 @@ def render_arg(it, arg):
 
 def debug_chars(it, v, depth=0):
     v = deref(v)
-    if isinstance(v, (Str, RString)): return fmt_debug_str(list(v.ch))
+    if isinstance(v, (Str, RString)): return fmt_debug_str(list(v.ch), it)
     if isinstance(v, bool): return [ord(c) for c in ('true' if v else 'false')]
     if isinstance(v, float):
         s = fmt_f64(v)
